@@ -1,4 +1,5 @@
 import PK.Properties.C14
+import PK.Properties.C14Cards
 open PK
 #print axioms rv_frame
 #print axioms rv_opShow
@@ -21,3 +22,5 @@ open PK
 #print axioms C14_runouts_of_board
 #print axioms C14_own_suffix
 #print axioms C14_even_split
+#print axioms PK.C14_no_card_twice
+#print axioms PK.C14_hands_and_boards_disjoint
